@@ -22,7 +22,9 @@ fn valid_len(v: &str) -> Option<Option<u64>> {
 fn vp_native_framing_decision_matrix() { watched(vp_native_framing_decision_matrix_body); }
 fn vp_native_framing_decision_matrix_body() {
     let cl_values = ["0", "3", "03", "-3", "3a", " 3", "", "18446744073709551615", "18446744073709551616", "99999999999999999999",
-                     "18446744073709551621", "1e2", "+3", "00000000000000000000005"];
+                     "18446744073709551621", "1e2", "+3", "00000000000000000000005",
+                     // control bytes inside the value (NUL, a bare CR, DEL, a leading control byte): not a number
+                     "5\u{0}", "1\r2", "5\u{7f}", "\u{1}5"];
     // Transfer-Encoding as a list of field lines (a list split over several lines is the same list, RFC 9110 5.3)
     let te_values: [&[&str]; 10] = [&[], &["chunked"], &["Chunked"], &["foo, chunked"], &["identity,CHUNKED"], &["gzip"],
                                     &["identity", "chunked"], &["foo", "bar , Chunked"], &["chunked", "identity"], &["identity", "x-other"]];
@@ -36,6 +38,7 @@ fn vp_native_framing_decision_matrix_body() {
                 let mut cl_lists: Vec<Vec<&str>> = vec![vec![]];
                 for a in cl_values { cl_lists.push(vec![a]); }
                 for a in ["3", "5", "18446744073709551621", "x"] { for b in ["3", "5", "03"] { cl_lists.push(vec![a, b]); } }
+                for l in [["5", "50\u{7f}"], ["5\u{0}", "5"], ["3", "1\r2"]] { cl_lists.push(l.to_vec()); }
                 // three and four copies: every position of a disagreeing or invalid copy
                 for l in [["3", "3", "3", "3"], ["3", "3", "5", "5"], ["3", "5", "3", "5"], ["5", "3", "3", "3"], ["3", "3", "3", "5"], ["3", "3", "x", "3"]] { cl_lists.push(l.to_vec()); cl_lists.push(l[..3].to_vec()); }
                 for cls in &cl_lists {
@@ -55,6 +58,9 @@ fn vp_native_framing_decision_matrix_body() {
                     cases += 1;
                     let no_body = method == Method::HEAD || (100..200).contains(&status) || status == 204 || status == 304;
                     let ctx = format!("method {} status {} CL {:?} TE {:?}", method, status, cls, te);
+                    // a control byte in a field value makes the head itself invalid: refusing the whole response is fine for any status
+                    let ctl = cls.iter().any(|v| v.bytes().any(|b| (b < 0x20 && b != b'\t') || b == 0x7f));
+                    if ctl && res.is_err() { continue; }
                     if no_body {
                         assert_eq!(res.as_ref().ok().map(|b| b.len()), Some(0), "no-body response must have an empty body: {} -> {:?}", ctx, res);
                         continue;
@@ -122,6 +128,35 @@ fn vp_native_frame_bounds_coded_bodies_body() {
         }
     } } }
     println!("VP-NATIVE frame_bounds_coded_bodies cases={}", cases);
+}
+
+/// C05: no response head makes the parser panic: every sequence of up to 6 (thorough: 7) pieces out of a head alphabet (names,
+/// colons, blanks, tabs, CRLF, bare LF, bare CR, an obs-text byte) after a status line, complete or cut; any Ok / Err will do
+#[test]
+fn vp_native_head_hostile_inputs_no_panic() { watched(vp_native_head_hostile_inputs_no_panic_body); }
+fn vp_native_head_hostile_inputs_no_panic_body() {
+    let pieces: [&[u8]; 9] = [b"X", b":", b" ", b"\t", b"\r\n", b"\n", b"\r", b"\xe9", b"Content-Length"];
+    let depth = if std::env::var("VP_TIER").as_deref() == Ok("thorough") { 7 } else { 6 };
+    let mut cases = 0u64;
+    let mut idx = vec![0usize; depth];
+    let req = PreparedRequest::new(Method::GET, "http://a.test/");
+    'all: loop {
+        for len in 0..=depth {
+            if len < depth && idx[len..].iter().any(|&i| i != 0) { continue; }
+            let mut wire = b"HTTP/1.1 200 OK\r\n".to_vec();
+            for &i in &idx[..len] { wire.extend_from_slice(pieces[i]); }
+            for tail in [&b""[..], b"\r\n\r\nbody"] {
+                let mut w = wire.clone(); w.extend_from_slice(tail);
+                let shown = w.clone();
+                let r = std::panic::catch_unwind(std::panic::AssertUnwindSafe(|| { let _ = parse_response(BaseStream::mock(w), &req, req.url()).and_then(|r| r.bytes()); }));
+                assert!(r.is_ok(), "the parser panicked on the response head {:?}", String::from_utf8_lossy(&shown));
+                cases += 1;
+            }
+        }
+        let mut k = 0;
+        loop { if k == depth { break 'all; } idx[k] += 1; if idx[k] < pieces.len() { break; } idx[k] = 0; k += 1; }
+    }
+    println!("VP-NATIVE head_hostile_inputs_no_panic cases={}", cases);
 }
 
 /// C04: heads built from small alphabets parse back to what was sent (names case-insensitively, values trimmed, duplicates in
@@ -381,7 +416,7 @@ static ALLOC_BEAT: std::sync::atomic::AtomicU64 = std::sync::atomic::AtomicU64::
 const STALL_SECS: u64 = 30;
 fn watched(body: fn()) {
     let (tx, rx) = std::sync::mpsc::channel();
-    std::thread::Builder::new().stack_size(16 << 20).spawn(move || { let r = std::panic::catch_unwind(body); let _ = tx.send(r); }).unwrap();
+    std::thread::Builder::new().name(std::thread::current().name().unwrap_or("vp_native").to_string()).stack_size(16 << 20).spawn(move || { let r = std::panic::catch_unwind(body); let _ = tx.send(r); }).unwrap();
     let (mut last, mut idle) = (u64::MAX, 0u64);
     loop {
         match rx.recv_timeout(std::time::Duration::from_secs(1)) {
